@@ -52,6 +52,54 @@ theorem highOff_unit (step : Int) (N : Nat) (h : step = 1 ∨ step = -1) :
   · rw [highOff_odd step N hN]
     rcases h with rfl | rfl <;> simp
 
+/-- the `high` samples `ihaar` / `iwavelet` read lie inside the row's own address range
+    `[data, data + step·(N−1)]` (reversed for a negative step), whatever the parity of `N`: the truncated pointer
+    never leaves the array -/
+theorem high_read_in_row (step : Int) (N i : Nat) (hi : i < N / 2) :
+    (0 ≤ step → 0 ≤ highOff step N + step * (i : Int) ∧
+      highOff step N + step * (i : Int) ≤ step * ((N - 1 : Nat) : Int)) ∧
+    (step ≤ 0 → step * ((N - 1 : Nat) : Int) ≤ highOff step N + step * (i : Int) ∧
+      highOff step N + step * (i : Int) ≤ 0) := by
+  rcases Nat.mod_two_eq_zero_or_one N with hN | hN
+  · rw [highOff_even step N hN]
+    have e : step * ((N / 2 : Nat) : Int) + step * (i : Int) = step * ((N / 2 + i : Nat) : Int) := by
+      push_cast; ring
+    rw [e]
+    have hq : ((N / 2 + i : Nat) : Int) ≤ ((N - 1 : Nat) : Int) := by omega
+    have hq0 : (0 : Int) ≤ ((N / 2 + i : Nat) : Int) := by omega
+    constructor
+    · intro hs
+      exact ⟨mul_nonneg hs hq0, mul_le_mul_of_nonneg_left hq hs⟩
+    · intro hs
+      exact ⟨mul_le_mul_of_nonpos_left hq hs, mul_nonpos_of_nonpos_of_nonneg hs hq0⟩
+  · rw [highOff_odd step N hN]
+    have e : step * ((N / 2 : Nat) : Int) + step.tdiv 2 + step * (i : Int)
+        = step * ((N / 2 + i : Nat) : Int) + step.tdiv 2 := by
+      push_cast; ring
+    rw [e]
+    have hq : ((N / 2 + i : Nat) : Int) + 1 ≤ ((N - 1 : Nat) : Int) := by omega
+    have hq0 : (0 : Int) ≤ ((N / 2 + i : Nat) : Int) := by omega
+    constructor
+    · intro hs
+      have t0 : 0 ≤ step.tdiv 2 := by rw [Int.tdiv_eq_ediv_of_nonneg hs]; omega
+      have t1 : step.tdiv 2 ≤ step := by rw [Int.tdiv_eq_ediv_of_nonneg hs]; omega
+      have h1 : step * (((N / 2 + i : Nat) : Int) + 1) ≤ step * ((N - 1 : Nat) : Int) :=
+        mul_le_mul_of_nonneg_left hq hs
+      have h0 := mul_nonneg hs hq0
+      rw [mul_add, mul_one] at h1
+      exact ⟨by linarith, by linarith⟩
+    · intro hs
+      have e2 : step = -(-step) := by ring
+      have t0 : step.tdiv 2 ≤ 0 := by
+        rw [e2, Int.neg_tdiv, Int.tdiv_eq_ediv_of_nonneg (by omega)]; omega
+      have t1 : step ≤ step.tdiv 2 := by
+        rw [e2, Int.neg_tdiv, Int.tdiv_eq_ediv_of_nonneg (by omega)]; omega
+      have h1 : step * ((N - 1 : Nat) : Int) ≤ step * (((N / 2 + i : Nat) : Int) + 1) :=
+        mul_le_mul_of_nonpos_left hq hs
+      have h0 := mul_nonpos_of_nonpos_of_nonneg hs hq0
+      rw [mul_add, mul_one] at h1
+      exact ⟨by linarith, by linarith⟩
+
 /-- the pointer is right: `high = data + step·(N/2)` -/
 def HighOK (step : Int) (N : Nat) : Prop := highOff step N = step * ((N / 2 : Nat) : Int)
 
